@@ -552,6 +552,10 @@ func (e *Env) index(v, i Val) Val {
 		if et == nil {
 			e.fail("index of slice with unknown element type")
 		}
+		if _, isStruct := et.Underlying().(*types.Struct); isStruct {
+			// element of a slice of struct values: the element object (see indexAddr)
+			return Val{T: sx("selem", sx("s-arr", v.T), sx("idx", sx("s-off", v.T), i.T)), S: "Int", G: types.NewPointer(et)}
+		}
 		hn := elemHeapName(et)
 		es := g.sortOf(et)
 		h := g.heap(e.st, hn, "(Array Int (Array Int "+es+"))")
@@ -905,6 +909,27 @@ func (e *Env) call(x *ECall) Val {
 			e.fail("unknown type %s", tn)
 		}
 		return Val{T: v.T, S: g.sortOf(t), G: t}
+	case "sentf":
+		// sentf(ch, k, "field"): field of the k-th value sent on a channel of struct values
+		v, k := arg(0), arg(1)
+		fname := x.Args[2].(*EStr).V
+		ch, ok := v.G.Underlying().(*types.Chan)
+		if !ok {
+			e.fail("sentf: not a channel")
+		}
+		st, ok := ch.Elem().Underlying().(*types.Struct)
+		if !ok {
+			e.fail("sentf: channel of non-struct values")
+		}
+		boxed := sx("select", sx("select", g.heap(e.st, "ChanV", "(Array Int (Array Int Int))"), v.T), k.T)
+		un := g.unboxAny(boxed, g.sortOf(ch.Elem()))
+		for i := 0; i < st.NumFields(); i++ {
+			f := st.Field(i)
+			if f.Name() == fname {
+				return Val{T: sx(q("S."+typeKey(ch.Elem())+"."+fieldAcc(f, i)), un), S: g.sortOf(f.Type()), G: f.Type()}
+			}
+		}
+		e.fail("sentf: no field %s", fname)
 	case "closed":
 		v := arg(0)
 		return Val{T: sx("select", g.heap(e.st, "Closed", "(Array Int Bool)"), v.T), S: "Bool"}
@@ -1993,6 +2018,9 @@ func (g *Gen) appendOp(c *ssa.CallCommon) Val {
 	t := g.val(c.Args[1])
 	st := c.Args[0].Type().Underlying().(*types.Slice)
 	et := st.Elem()
+	if _, isStruct := et.Underlying().(*types.Struct); isStruct {
+		g.bail("append to a slice of struct values")
+	}
 	es := g.sortOf(et)
 	hn := elemHeapName(et)
 	hs := "(Array Int (Array Int " + es + "))"
